@@ -35,6 +35,11 @@ _LOCALSTRUCT = _re.compile(r"^(\w+)\.")
 _OFF = _re.compile(r"^\((.*)\+#(\d+)\)$")
 
 
+def _lastfield(key):
+    k = key.replace("->", ".")
+    return k.rsplit(".", 1)[-1] if "." in k else key
+
+
 def add_const(v, c):
     """v + c with constant offsets folded: (x+#3)+#5 -> (x+#8)."""
     if v[0] == "c":
@@ -132,7 +137,7 @@ class Path:
 
 
 class State:
-    __slots__ = ("env", "epoch", "cons", "events", "visits", "blocks", "atoms", "nodeval", "fresh", "det", "lver")
+    __slots__ = ("env", "epoch", "cons", "events", "visits", "blocks", "atoms", "nodeval", "fresh", "det", "lver", "fver")
 
     def copy(self):
         s = State()
@@ -147,6 +152,7 @@ class State:
         s.fresh = self.fresh
         s.det = False
         s.lver = dict(self.lver)
+        s.fver = dict(self.fver)
         return s
 
 
@@ -195,7 +201,7 @@ class APE:
             if m:
                 # member of a local struct object: changes only by stores to it or calls given its address
                 return ("s", "%s@L%d" % (key, st.lver.get(m.group(1), 0)))
-            return ("s", "%s@%d" % (key, st.epoch))
+            return ("s", "%s@%d" % (key, st.epoch + st.fver.get(_lastfield(key), 0)))
         if k == "UnaryOperator":
             op = n["op"]
             a = self.val(st, n["kids"][0])
@@ -377,7 +383,9 @@ class APE:
             if fld:
                 for k in [k for k in st.env if k != key and k.endswith("->" + fld)]:
                     del st.env[k]
-            st.epoch += 1
+            # a precise store only ages reads of the same field name (through any base), not all memory
+            lf = _lastfield(key)
+            st.fver[lf] = st.fver.get(lf, 0) + 1
         else:
             for k in [k for k in st.env if k != key and (k.startswith(key + "->") or k.startswith(key + ".") or
                                                          k.startswith("*" + key) or k.startswith(key + "["))]:
@@ -537,6 +545,7 @@ class APE:
         st.fresh = 0
         st.det = False
         st.lver = {}
+        st.fver = {}
         self.paths = []
         self.stop = set(stop)
         stack = [(start if start is not None else f.entry, st)]
